@@ -64,6 +64,10 @@ type c08Case struct {
 	// A thread-sync load is then refused by the kernel (divergent filter): LoadFilter may only return nil if the
 	// policy is in force all the same; a load without thread-sync succeeds and concerns the loading thread only.
 	Prior bool `json:"prior,omitempty"`
+	// PriorSame (with Prior): the filter the second thread installs first is this very policy, with the same flag word
+	// and no_new_privs request: an equal program was handed to the kernel before, by another thread. The load under
+	// test has to install its filter all the same.
+	PriorSame bool `json:"prior_same,omitempty"`
 }
 
 func archOfGOARCH(g string) string {
@@ -178,7 +182,8 @@ func drawC08(t *rapid.T) c08Case {
 	}
 	c.Events = evs
 	c.Strace = rapid.IntRange(0, 9).Draw(t, "strace") == 0
-	c.Prior = rapid.IntRange(0, 5).Draw(t, "prior") == 0
+	c.Prior = rapid.IntRange(0, 4).Draw(t, "prior") == 0
+	c.PriorSame = c.Prior && rapid.Bool().Draw(t, "priorSame")
 	return c
 }
 
@@ -252,7 +257,11 @@ func checkC08(raw json.RawMessage) (ev.Result, error) {
 	o := 0 // shift of the step indices below
 	if c.Prior {
 		prior := spec.Policy{Arch: archName, Default: actAllow, Groups: []spec.Group{{Action: actAllow, Names: []string{"getpid"}}}}
-		steps = append(steps, kjob.Step{Op: "load", Thread: 1, Filter: &kjob.FilterSpec{Policy: prior, NNP: true, Flag: 0, HostArch: true}})
+		fs := &kjob.FilterSpec{Policy: prior, NNP: true, Flag: 0, HostArch: true}
+		if c.PriorSame {
+			fs = &kjob.FilterSpec{Policy: *p, NNP: c.NNP, Flag: c.Flag, HostArch: true}
+		}
+		steps = append(steps, kjob.Step{Op: "load", Thread: 1, Filter: fs})
 		o = 1
 	}
 	steps = append(steps,
@@ -307,10 +316,13 @@ func checkC08(raw json.RawMessage) (ev.Result, error) {
 	if ld.Panic != "" {
 		return res, fmt.Errorf("LoadFilter panicked: %s", ld.Panic)
 	}
-	if c.Prior {
+	priorSynced := c.Prior && c.PriorSame && tsync // the earlier load was itself synchronised to every thread
+	if c.PriorSame {
+		res.Classes = append(res.Classes, "equal-program-installed-before-by-another-thread")
+	} else if c.Prior {
 		res.Classes = append(res.Classes, "second-thread-carries-a-divergent-filter")
 	}
-	if !ld.Nil && c.Prior && tsync {
+	if !ld.Nil && c.Prior && tsync && !priorSynced {
 		// refused by the kernel and reported: nothing was claimed to be in force (what must be reported is C09's matter)
 		res.Classes = append(res.Classes, "thread-sync-refused-and-reported")
 		return res, nil
@@ -350,18 +362,20 @@ func checkC08(raw json.RawMessage) (ev.Result, error) {
 		if s.Role != "command" {
 			continue
 		}
-		filtered := s.Idx == 0 || tsync
-		if filtered && (s.Seccomp != 2 || s.Filters != 1) {
-			return res, fmt.Errorf("LoadFilter returned nil (flags %#x, divergent filter on the other thread: %v), but thread %d has Seccomp=%d Seccomp_filters=%d", c.Flag, c.Prior, s.Idx, s.Seccomp, s.Filters)
+		want := 0
+		if s.Idx == 0 || tsync {
+			want++ // the load under test
 		}
-		if !filtered && c.Prior {
-			if s.Seccomp != 2 || s.Filters != 1 {
-				return res, fmt.Errorf("thread-sync not requested: thread %d should carry its own prior filter only, has Seccomp=%d Seccomp_filters=%d", s.Idx, s.Seccomp, s.Filters)
-			}
-			continue
+		if c.Prior && (s.Idx == 1 || priorSynced) {
+			want++ // the earlier load
 		}
-		if !filtered && s.Seccomp != 0 {
-			return res, fmt.Errorf("thread-sync not requested, but thread %d has Seccomp=%d", s.Idx, s.Seccomp)
+		wantMode := 0
+		if want > 0 {
+			wantMode = 2
+		}
+		if s.Seccomp != wantMode || s.Filters != want {
+			return res, fmt.Errorf("LoadFilter returned nil (flags %#x; earlier load on the other thread: %v, of the same policy: %v), thread %d should carry %d filter(s) and has Seccomp=%d Seccomp_filters=%d",
+				c.Flag, c.Prior, c.PriorSame, s.Idx, want, s.Seccomp, s.Filters)
 		}
 	}
 	// probes on the loading thread and on the other thread
@@ -407,7 +421,7 @@ func checkC08(raw json.RawMessage) (ev.Result, error) {
 		}
 		for i, e := range c.Events {
 			w := wants[i]
-			if !tsync {
+			if !tsync && !c.PriorSame {
 				w = actAllow
 			}
 			if err := expectProbe(w, pe2[0].Results[i], baseByNr[e.Nr], e); err != nil {
